@@ -20,4 +20,14 @@ TEXTS = {
         "level_text": "Every vector length 0..=130 is exercised (exhaustive in the quantity the bug class depends on) with tens of thousands of random value draws; round-trip, Euclidean, cosine are compared with an f64 textbook evaluation and the symmetry / identity / triangle / range / parallel / scale laws are asserted on each draw. Values are sampled, not enumerated.",
         "level_note": "Trusts the f64 reference evaluation and the stated tolerances (>=50x above the largest error observed on the pinned tree). Says nothing about non-finite inputs.",
     },
+    "C19": {
+        "technique": "runtime oracle: f64 reference rotation / conversions; equality relation checked over the full (field x delta x order) product per random base box",
+        "level_text": "Thousands (quick) to hundreds of thousands (thorough) of random base boxes over magnitudes 1e-2..1e4; for each one every field of both box types is perturbed by every delta across the epsilon boundary in both argument orders (that small product is enumerated completely), and the polygon, round-trip and angle-normalisation laws are checked against an f64 reference.",
+        "level_note": "Base boxes are sampled. Equality expectations are computed from the difference actually representable in f32; a 2% band around EPS is skipped and counted.",
+    },
+    "C08": {
+        "technique": "runtime differential oracle: independent f64 convex-intersection algorithm (vertex inclusion + edge crossings) vs the library on 2e5..2e7 generated box pairs incl. degenerate families; metamorphic checks (symmetry, rigid motion, closed form)",
+        "level_text": "Sampled pairs from eight structured families (general, identical, almost identical = GitHub #84, nested, touching/edge sharing, right-angle crossing, around the too_far radius, axis-aligned) at coordinate scales 10..1e4; each pair is checked for area, IoU formula, range, symmetry, presence/absence, too_far soundness, closed-form agreement and rigid-motion invariance.",
+        "level_note": "Trusts the f64 reference algorithm; presence/absence and closed-form agreement are only judged outside stated bands; tolerances have >=40x head-room over the largest error seen on the repaired tree.",
+    },
 }
